@@ -11,6 +11,7 @@ def snapshot():
     subprocess.run(["rsync", "-a", "--exclude", "build", "--exclude", ".git", "--exclude", "seeded", "--exclude", "harmless", "--exclude", "evidence", "--exclude", "replays", REAL_VERIF + "/", snap + "/"], check=True)
     VERIF = snap
     return snap
+FMT = ""
 def run_one(sid, replay):
     d = os.path.join(REAL_VERIF, "seeded", sid)
     meta = json.load(open(os.path.join(d, "meta.json")))
@@ -22,6 +23,11 @@ def run_one(sid, replay):
             (shutil.copytree if os.path.isdir(s) else shutil.copy)(s, os.path.join(tmp, f))
         p = subprocess.run(["patch", "-s", "-p1", "-i", os.path.join(d, "patch.diff")], cwd=tmp, capture_output=True, text=True)
         if p.returncode: return {"id": sid, "property": pid, "outcome": "patch-failed", "detail": p.stderr[-300:]}
+        if FMT:
+            # --fmt: reformat the patched tree with other rustfmt settings first (a change may arrive together with a reformat)
+            open(os.path.join(tmp, "rustfmt.toml"), "w").write(FMT)
+            fs = [os.path.join(dp, f) for dp, _, fl in os.walk(os.path.join(tmp, "src")) for f in fl if f.endswith(".rs")]
+            subprocess.run(["rustfmt", "--edition", "2021", "--config-path", os.path.join(tmp, "rustfmt.toml")] + fs, capture_output=True, text=True)
         cmd = [sys.executable, os.path.join(VERIF, "tools", "runner.py"), pid, "--src", os.path.join(tmp, "src"), "--no-evidence", "--out", os.path.join(tmp, "build")]
         if not replay: cmd.append("--no-replay")
         r = subprocess.run(cmd, capture_output=True, text=True)
@@ -37,6 +43,8 @@ def run_one(sid, replay):
         shutil.rmtree(tmp, ignore_errors=True)
 if __name__ == "__main__":
     replay = "--replay" in sys.argv
+    if "--fmt" in sys.argv: FMT = "max_width = 80\ntab_spaces = 2\n"
+    if "--fmt2" in sys.argv: FMT = "max_width = 60\nhard_tabs = true\nuse_small_heuristics = \"Off\"\n"
     snap = None if "--live" in sys.argv else snapshot()
     ids = [a for a in sys.argv[1:] if not a.startswith("--")] or sorted(x for x in os.listdir(os.path.join(REAL_VERIF, "seeded")) if x != "obsolete")
     from concurrent.futures import ThreadPoolExecutor
@@ -44,7 +52,7 @@ if __name__ == "__main__":
         res = list(ex.map(lambda s: run_one(s, replay), ids))
     for r in res:
         print("%-8s %-4s %-12s %s" % (r["id"], r["property"], r["outcome"] + ("+witness" if r.get("witness") else ""), (r.get("lines") or [""])[0][:150]))
-    if len(ids) > 5:
+    if len(ids) > 5 and not FMT:
         json.dump({"results": res}, open(os.path.join(REAL_VERIF, "selftest_report.json"), "w"), indent=1)
     c = {}
     for r in res: c[r["outcome"]] = c.get(r["outcome"], 0) + 1
